@@ -12,13 +12,15 @@ package io
 
 import "strconv"
 
-// checkCount validates an element count read from the wire before it sizes an
-// allocation or bounds a loop. A count can not be negative, and when the whole
-// input is in memory (no reader) it can not exceed the number of bytes left,
-// because every element takes at least one byte. An invalid count is a decode
-// error and is replaced by 0.
+// checkCount validates an element count read from the wire before it bounds a
+// loop: a negative count is a decode error and is replaced by 0. How large a
+// count may be can not be told in advance (a reader may still deliver the
+// elements), so a count never sizes an allocation by itself: containers reserve
+// at most minPrealloc elements, grow as the elements really arrive, and their
+// loops stop at the first error. A reader and an in-memory input therefore
+// decode the same bytes to the same value, error and position.
 func (dec *Decoder) checkCount(count int) int {
-	if count < 0 || (dec.reader == nil && count > dec.tail-dec.head) {
+	if count < 0 {
 		if dec.Error == nil {
 			dec.Error = DecodeError("hprose/io: invalid element count " + strconv.Itoa(count))
 		}
